@@ -31,3 +31,18 @@ Theorem C16_model_logs_ok : forall is,
   monitor_log_ok (received_by_monitor is) (mrun MWaitReady is) false = true.
 Proof. exact model_logs_ok. Qed.
 Print Assumptions C16_model_logs_ok.
+
+(* the cache has stopped when the monitor lists at readiness: no callback at
+   all (the monitor shuts down with the error) *)
+Theorem C16_failed_listing_no_callbacks : forall pre post,
+  Forall (fun i => forall c, i <> MReady c) pre -> mrun MWaitReady (pre ++ MReadyFail :: post) = [].
+Proof. exact failed_listing_no_callbacks. Qed.
+Print Assumptions C16_failed_listing_no_callbacks.
+
+(* handlers built with any subset of the four callbacks see the callback log
+   restricted to the callbacks they have; OnInitialize, if present, is still
+   first and only once *)
+Theorem C16_masked_init_first : forall m is c rest, mrun_masked m is = c :: rest ->
+  existsb is_init rest = false.
+Proof. exact masked_init_first. Qed.
+Print Assumptions C16_masked_init_first.
